@@ -123,8 +123,9 @@ def run_cases(ctx, vlib, cases, what, prefix, selftest=True):
     # harness faults (worker died for another reason than the scripted kill) make the run undecided, not a violation
     broken = [r for r in rows if r.get("ev") == "end" and r.get("exit") not in (0, 86)]
     hard = [r for r in broken if "openfail" not in [x.get("ev") for x in rows[max(0, rows.index(r) - 3):rows.index(r)]]]
-    if len(hard) > max(2, len(cases) // 20):
-        raise vlib.Undecided("%d worker lives ended abnormally, e.g. %s" % (len(hard), hard[0]))
+    # ... unless the trace of what did run already shows a violation (judged below; every verdict there is about
+    # what the real store returned)
+    too_many = len(hard) > max(2, len(cases) // 20)
 
     def key(bad, name):
         i = rows.index(bad) if bad in rows else 0
@@ -136,7 +137,7 @@ def run_cases(ctx, vlib, cases, what, prefix, selftest=True):
             i -= 1
         c = byid.get(cid, {"phases": []})
         prev = c["phases"][ph - 1]["script"] if 0 < ph <= len(c["phases"]) else ""
-        hadload = any("L" in p["script"].replace("LB", "") for p in c["phases"][:ph + 1])
+        hadload = any("L" in p["script"].replace("LB", "") or "B" in p["script"].replace("LB", "").split(",") for p in c["phases"][:ph + 1])
         k = "%s:%s:after=%s:recover=%s:fast=%s:load=%s" % (prefix, name or "rejected", kill_kind(prev), bool(bad.get("recover")),
                                                      bool(bad.get("fast")), hadload)
         if bad.get("ev") == "openfail":
@@ -158,6 +159,8 @@ def run_cases(ctx, vlib, cases, what, prefix, selftest=True):
         raise vlib.Undecided("no reopen to corrupt")
     vlib.trace_check(ctx, "TraceSnapshotting", "TraceSnapshotting.cfg", tr, what, key_fn=key,
                      selftest=corrupt if selftest else None, timeout=1800)
+    if too_many and not ctx.violations:
+        raise vlib.Undecided("%d worker lives ended abnormally, e.g. %s" % (len(hard), hard[0]))
     st["lives"] = sum(len(c["phases"]) for c in cases)
     st["reopens"] = sum(1 for r in rows if r.get("ev") == "open" and r.get("phase", 0) > 0)
     st["fast_reopens"] = sum(1 for r in rows if r.get("ev") == "open" and r.get("fast"))
